@@ -40,6 +40,12 @@ no option to rewrite) — and is answered with that request's answer (`NV.C01.up
 every UDP limit). -/
 def stepStaleQ (toks : List String) : Option String :=
   match toks with
+  | ["stallread", ns, ms] =>
+    -- a TCP reply is the upstream's message behind its length, whole (`NV.C05.tcp_prefix`, `NV.C01.tcp_reply_faithful`),
+    -- however long the client takes to read it: n pipelined queries and one more, n + 1 whole replies
+    match ns.toNat?, ms.toNat? with
+    | some n, some m => if n = 0 ∨ n > 400 ∨ m > 5000 then some "bad-op" else some s!"whole={n + 1}/{n + 1}"
+    | _, _ => some "bad-op"
   | ["d53soak", ns] =>
     -- n exchanges with a plain-DNS upstream that answers each at once: every exchange is decided by its own datagrams
     -- (`NV.C03.dns53_*`: the model of DNS53.resolve has no state between exchanges), so all n are answered
